@@ -13,6 +13,7 @@ and `kyber/group/mod.Int` are after the three repairs of this round) over `Model
 All statements are for EVERY element / EVERY byte string (no bound).
 -/
 import DosModel.Proofs.CodecChar
+import DosModel.Proofs.Bn256ConcRedc
 import DosModel.Gen.CodecFacts
 
 namespace Dos.Props.C11
@@ -136,6 +137,24 @@ theorem g2_stream_roundtrip (P : G2) (hv : G2.valid P = true) (tail : Bytes) :
     simp
 
 example : unmarshalFromG2 (marshalG2 .inf ++ [5, 6]) = (1, .ok .inf) := g2_stream_roundtrip .inf rfl [5, 6]
+
+/-- **limb level**: `UnmarshalBinary` stores `montEncode x` (a reduced limb value) for the word x it
+read, and `MarshalBinary` writes `montDecode` of the stored limbs, which is the 32-byte encoding of
+`x mod p` — for a canonical word (the only ones accepted since /repo 1d47f6b) the very bytes read.
+Proved from the Montgomery constants of constants.go (`np·p ≡ −1 mod 2^256`, `r2 = R² mod p`),
+for ALL 256-bit words. -/
+theorem limb_level_roundtrip (x : Nat) (hx : x < 2 ^ 256) :
+    storeCoord x < p ∧ storeCoord x = x * R % p ∧ emitCoord (storeCoord x) = be32 (x % p) ∧
+    (x < p → emitCoord (storeCoord x) = be32 x) := by
+  have h1 := montEncode_lt x hx
+  have h2 := montDecode_montEncode x hx
+  refine ⟨h1, montEncode_spec x hx, by simp only [emitCoord, storeCoord, h2], ?_⟩
+  intro hp
+  simp only [emitCoord, storeCoord, h2, Nat.mod_eq_of_lt hp]
+
+example : emitCoord (storeCoord (p + 5)) = be32 5 := by
+  have := (limb_level_roundtrip (p + 5) (by decide)).2.2.1
+  rw [this]; congr 1
 
 /-! ## 2. fixed lengths -/
 
